@@ -280,6 +280,55 @@ def parent_stores(b, g, field="parent"):
     return out
 
 
+def registration_rules(ctx, g, ipath):
+    """get_index: an element is looked up through the index map alone and a new element is registered in all four tables at once - the index
+    map under the slot number it gets, elements, rank, parent - on every path that registers it.  An element that is stored but not indexed
+    (or found by a second mechanism that disagrees with the first by one slot) is registered again at its next lookup and its unions are lost."""
+    gi = ctx.facts.bodies.get(M + ipath + "::get_index")
+    if gi is None:
+        return
+    ctx.clauses.append("get_index: lookup through the index map only; a new element enters index (under its slot number), elements, rank and parent on every registering path (T3)")
+    me = ("param", 1, gi.debug.get(1, ""))
+    a_ = ("param", 2, gi.debug.get(2, ""))
+    bad = None
+    ins = [(bi, [strip(norm(gi.origin(x), g)) for x in t["args"]]) for bi, t in gi.calls("HashMap::<K, V, S, A>::insert")]
+    pushes = {}
+    for bi, t in gi.calls("Vec::<T, A>::push"):
+        a = [strip(norm(gi.origin(x), g)) for x in t["args"]]
+        if a[0][0] == "field" and strip(a[0][1]) == me:
+            pushes.setdefault(a[0][2], []).append((bi, a[1]))
+    rets = [bi for bi, blk in gi.live_blocks() if blk["term"]["k"] == "return"]
+    if len(ins) != 1 or sorted(pushes) != ["elements", "parent", "rank"] or any(len(v) != 1 for v in pushes.values()) or len(rets) != 1:
+        bad = "registration is not one index.insert and one push each into elements, rank, parent (inserts: %d, pushes: %s)" % (len(ins), {k: len(v) for k, v in pushes.items()})
+    else:
+        ib, ia = ins[0]
+        eb, ev = pushes["elements"][0]
+        slot = ("call", "std::vec::Vec::<T, A>::len", (("field", me, "elements"),))
+        if strip(ia[2]) != slot or not (is_call(ia[1], "clone") or ia[1] == a_):
+            bad = "the index map does not record the new element under the slot number elements.len() it is about to get"
+        elif pushes["parent"][0][1] != slot:
+            bad = "the new element's parent is not its own slot number"
+        else:
+            sites = [ib, eb, pushes["rank"][0][0], pushes["parent"][0][0]]
+            first = [x for x in sites if all(gi.dominates(x, y) for y in sites)]
+            if not first:
+                bad = "the four registration steps are not on one path"
+            else:
+                for x in sites:
+                    if not must_pass_through(gi, first[0], x, rets[0]):
+                        bad = bad or "a path registers a new element without %s: it is stored but will not be found again (registered twice, its unions lost)" % (
+                            "entering it into the index map" if x == ib else "the push at block %d" % x)
+        # lookup: the only way to answer for a known element is the index map
+        finders = [t["callee"].get("def", "") for bi, t in gi.calls() if any(t["callee"].get("def", "").endswith(sfx) for sfx in ("::position", "::find", "::contains", "::binary_search", "::any"))]
+        if not bad and finders:
+            bad = "a second lookup mechanism (%s) beside the index map: the two must agree on every slot" % finders[0].split("::")[-1]
+        gets = [strip(norm(gi.origin(t["args"][1]), g)) for bi, t in gi.calls("HashMap::<K, V, S, A>::get")]
+        if not bad and gets != [a_]:
+            bad = "the index map is not asked for the element itself"
+    ctx.ob("T3-registration-complete", gi.name, "index / elements / rank / parent", "ok" if not bad else "violation",
+           "index.insert(a, elements.len()), elements.push(a), rank.push(0), parent.push(slot) on every registering path; lookup by index.get(a) only" if not bad else bad)
+
+
 def find_rules(ctx, g, impl, ipath):
     root = ctx.body(M + ipath + "::root_index")
     find = ctx.body(M + ipath + "::find")
@@ -289,6 +338,7 @@ def find_rules(ctx, g, impl, ipath):
         path.append(gi)
         ctx.anchors.append(gi.name)
     ctx.scan(path)
+    registration_rules(ctx, g, ipath)
     for b in path:
         un = [t for bi, t in b.calls("::unite")]
         ctx.require(not un, "T1-find-effects", b.name, "no-unite", "no unite on the find path", "the find path calls unite: a query changes class membership")
